@@ -139,11 +139,13 @@ theorem c_candidates_within (cC : Cons Int) :
       | .interval lo hi => lo ≤ (cBox cC).lo ∧ (cBox cC).hi ≤ hi ∧ 1 ≤ (cBox cC).lo ∧ (cBox cC).hi ≤ 10) ∧
     ∀ c ∈ csList cC, (cBox cC).lo ≤ c ∧ c ≤ (cBox cC).hi := ⟨cBox_within cC, csList_mem cC⟩
 
-/-- **T5 (noiseless class: the support contains the data).** After the pre-loop checks, every `a` of the
-box is `≤` every uncensored observation, every `b` of the box is `≥`, and the box reaches each limit
-beyond which observations were censored.  (`_partial` in scope only: the noisy class with `o ≡ 0` gets
-this from the finiteness of the loss, which is compared, not proved.) -/
-theorem support_contains_observations_quad [Sub α] [Add α] [Mul α] (zero negInf posInf : α) (ys : List α)
+/-- **T5 (the support contains the data) — partial.** Proved for the noiseless class: after the pre-loop
+checks, every `a` of the box is `≤` every uncensored observation, every `b` of the box is `≥`, and the box
+reaches each limit beyond which observations were censored — so *any* vector the optimiser returns inside
+its box has the property.  Missing: the noisy class with the noise pinned to 0, where the box of `a`, `b`
+is not cut at `y_min`, `y_max` and the clause rests on the finiteness of the loss (compared by
+`corr_C11.py`; it fails on the unchanged tree when an observation sits on an end of the box — finding F9). -/
+theorem support_contains_observations_partial [Sub α] [Add α] [Mul α] (zero negInf posInf : α) (ys : List α)
     (lo hi : α) (cA cB cO : Cons α) (cC : Cons Int) (cFloatPair : Bool) (st : Stats α) (w v : α)
     (p : ConvexPlan α)
     (hpre : precheck zero .quad (censor ys lo hi) lo hi cA cB cO cFloatPair = .ok st)
